@@ -24,19 +24,22 @@ LIB = [
     ("dotimp", "dotimp", False),
     # package name is not what goimports assumes from the path (C16 / F-23)
     ("p/pg-driver", "pgdriver", False), ("p/gokit", "kit", False),
+    # twins of one-component standard packages (their unique name never grows)
+    ("z/io", "io", False), ("w/io", "io", False), ("z/time", "time", False), ("z/os", "os", False),
+    ("z/log", "log", False), ("w/deep/log", "log", False), ("z/stdlog", "stdlog", False),
     # adversarial
     ("x/go-foo", "foo", True), ("q/x/foo", "bar", True), ("yy/xfoo", "bar", True),
     ("1a/foo", "foo", True), ("y/go-foo", "foo", True), ("w/foo-go", "foo", True),
 ]
 STD = [("context", "context"), ("io", "io"), ("net/http", "http"), ("time", "time"),
        ("os", "os"), ("text/template", "template"), ("html/template", "template"),
-       ("sync", "sync"), ("errors", "errors"), ("fmt", "fmt")]
+       ("sync", "sync"), ("errors", "errors"), ("fmt", "fmt"), ("log", "log")]
 
 STD_TYPES = {
     "context": ["Context", "CancelFunc"], "io": ["Reader", "Writer", "ReadCloser"],
     "net/http": ["Request", "Handler", "Header", "Client"], "time": ["Time", "Duration"],
     "os": ["File", "FileMode", "Signal"], "text/template": ["Template", "FuncMap"],
-    "html/template": ["Template", "HTML"], "sync": ["Mutex", "WaitGroup"],
+    "html/template": ["Template", "HTML"], "sync": ["Mutex", "WaitGroup"], "log": ["Logger"],
 }
 
 LIB_DECL = """package %s
@@ -553,7 +556,144 @@ def late_rename_case(rnd, name):
     return {"%s/a.go" % name: fa, "%s/b.go" % name: fb}, ["First", "Second"]
 
 
-def make_cases(rnd, root, n, adversarial=False, prefix="src"):
+def _sanit(c):
+    for a in ("go-", "-go", "-", "_", ".", "@", "+", "~"):
+        c = c.replace(a, "")
+    return c.lower()
+
+
+def unique_names(path):
+    """the names moq's conflict resolution can hand out for an import path"""
+    parts = path.split("/")
+    out, acc = [], ""
+    for c in reversed(parts):
+        acc = _sanit(c) + acc
+        out.append(acc)
+    return out
+
+
+def conflict_case(rnd, name, adversarial=False):
+    """Conflict-focused input.  A per-case library package `<name>/hub` declares interfaces whose
+    methods mix packages that share names (its own file-local aliases are invisible to moq); the
+    source package reaches them through aliases/embedding, so the packages arrive in the registry
+    un-aliased, in an order fixed by the method names, and may be given source aliases that are
+    other packages' names or the names conflict resolution would invent.  Parameter names are drawn
+    from those same names."""
+    r = rnd
+    groups = {}
+    for rel, nm, adv in LIB:
+        if rel != "dotimp" and (adversarial or not adv):
+            groups.setdefault(nm, []).append((MOD + "/" + rel, nm))
+    for pth, nm in STD:
+        if pth in STD_TYPES:
+            groups.setdefault(nm, []).append((pth, nm))
+    rich = [k for k, v in groups.items() if len(v) >= 2]
+    chosen = []
+    for g in r.sample(rich, r.choice([1, 1, 2])):
+        chosen += r.sample(groups[g], min(len(groups[g]), r.choice([2, 2, 3])))
+    others = [x for v in groups.values() for x in v if x not in chosen]
+    chosen += r.sample(others, r.choice([0, 1, 1, 2]))
+    r.shuffle(chosen)
+    invent = [u for pth, _ in chosen for u in unique_names(pth.replace(MOD + "/", "m/", 1) if False else pth)[:3]]
+    names_pool = sorted(set(invent + [nm for _, nm in chosen])) + ["s", "n", "v"]
+
+    def ty(i):
+        pth, nm = chosen[i]
+        q = "p%d" % i
+        if pth in STD_TYPES:
+            t = q + "." + r.choice(STD_TYPES[pth])
+            if t.endswith((".Mutex", ".WaitGroup", ".Template", ".File", ".Client", ".Request", ".Logger")):
+                t = "*" + t
+            return t
+        base = q + "." + r.choice(["T", "T", "N", "S", "F", "A", "I"])
+        return r.choice(["%s", "%s", "*%s", "[]%s", "map[string]%s", "chan %s", "func(%s) error"]) % base
+
+    hub = ["package hub", "", "import ("]
+    for i, (pth, nm) in enumerate(chosen):
+        hub.append('\tp%d "%s"' % (i, pth))
+    hub += [")", ""]
+    ifaces = []
+    order = list(range(len(chosen)))
+    nif = r.choice([1, 1, 2, 3])
+    mcount = 0
+    for h in range(nif):
+        lines = []
+        r.shuffle(order)
+        for i in order:
+            if nif > 1 and r.random() < 0.4:
+                continue
+            # method names fix go/types' order, hence the registration order of the packages
+            mname = "M%c%d" % (r.choice("ABCDEFG"), mcount)
+            mcount += 1
+            idx = [i] + [r.randrange(len(chosen)) for _ in range(r.choice([0, 0, 1, 2]))]
+            named = r.random() < 0.7
+            ps = []
+            used = set()
+
+            def fresh():
+                pn = r.choice(names_pool) if r.random() < 0.6 else r.choice(PLAIN_NAMES + TRICKY_NAMES)
+                while pn in used or pn == "_x":
+                    pn = r.choice(PLAIN_NAMES) + str(len(used))
+                used.add(pn)
+                return pn
+            for j in idx:
+                ps.append("%s %s" % (fresh(), ty(j)) if named else ty(j))
+            if r.random() < 0.3:
+                t = "..." + ty(r.randrange(len(chosen)))
+                ps.append("%s %s" % (fresh(), t) if named else t)
+            rk = r.randrange(6)
+            if rk < 2:
+                res = ""
+            elif rk == 2:
+                res = " error"
+            elif rk == 3:
+                res = " %s" % ty(r.randrange(len(chosen)))
+            elif rk == 4:
+                res = " (%s, error)" % ty(r.randrange(len(chosen)))
+            else:
+                res = " (%s %s, %s error)" % (fresh(), ty(r.randrange(len(chosen))), fresh())
+            lines.append("\t%s(%s)%s" % (mname, ", ".join(ps), res))
+        if not lines:
+            lines.append("\tM%d(%s)" % (mcount, ty(0)))
+            mcount += 1
+        hub.append("// H%d is declared here so that moq sees the packages without aliases.\ntype H%d interface {\n%s\n}\n" % (h, h, "\n".join(lines)))
+    # keep every import of hub used
+    for i in range(len(chosen)):
+        hub.append("var _ %s" % ty(i).replace("...", ""))
+    files = {"%s/hub/hub.go" % name: "\n".join(hub) + "\n"}
+    # source package: reaches the interfaces through aliases and embedding; may give some of the
+    # packages source aliases (names of other packages, invented names, own names)
+    src = ["package %s" % name, "", "import ("]
+    taken = {"hub"}
+    aliased = []
+    for i, (pth, nm) in enumerate(chosen):
+        if r.random() < 0.3:
+            al = r.choice(names_pool) if r.random() < 0.7 else r.choice(TRICKY_ALIASES)
+            if al in taken or al in ("s", "n", "v") and r.random() < 0.5:
+                continue
+            taken.add(al)
+            aliased.append((al, pth, i))
+            src.append('\t%s "%s"' % (al, pth))
+    src.append('\t"%s/%s/hub"' % (MOD, name))
+    src += [")", ""]
+    for al, pth, i in aliased:
+        t = STD_TYPES[pth][0] if pth in STD_TYPES else "T"
+        src.append("var _ *%s.%s" % (al, t))
+    for h in range(nif):
+        form = r.choice(["alias", "alias", "embed", "embed2"])
+        if form == "alias":
+            src.append("// R%d is hub.H%d.\ntype R%d = hub.H%d\n" % (h, h, h, h))
+        elif form == "embed":
+            src.append("// R%d embeds hub.H%d.\ntype R%d interface{ hub.H%d }\n" % (h, h, h, h))
+        else:
+            src.append("// R%d embeds hub.H%d and adds a method.\ntype R%d interface {\n\thub.H%d\n\tOwn%d(%s int) string\n}\n"
+                       % (h, h, h, h, h, r.choice(names_pool)))
+        ifaces.append("R%d" % h)
+    files["%s/a.go" % name] = "\n".join(src) + "\n"
+    return files, ifaces
+
+
+def make_cases(rnd, root, n, adversarial=False, prefix="src", conflict_share=0.0):
     """Writes n source packages under root; returns list of dicts {dir, ifaces}."""
     out = []
     for i in range(n):
@@ -562,7 +702,10 @@ def make_cases(rnd, root, n, adversarial=False, prefix="src"):
         ordsens = rnd.random() < 0.08
         g.clause = name
         late = not ordsens and rnd.random() < 0.08
-        if ordsens:
+        conflict = not ordsens and not late and rnd.random() < conflict_share
+        if conflict:
+            files, ifaces = conflict_case(rnd, name, adversarial)
+        elif ordsens:
             files, ifaces = alias_disagreement_case(rnd, name)
         elif late:
             files, ifaces = late_rename_case(rnd, name)
